@@ -255,6 +255,10 @@ void parallel_sort_mwms_pu(PMWMSSortingData<RandomAccessIterator>* sd,
 
     barrier.wait();
 
+    // destroy the copies made by uninitialized_copy, then release the storage
+    for (DiffType i = 0; i < length_local; ++i)
+        sd->temporary[iam][i].~ValueType();
+
     operator delete(sd->temporary[iam]);
 }
 
